@@ -26,11 +26,11 @@ CHECKS = {
                 tech="z3-term symbolic execution of fuse/unfuse (both strategies, cache on/off) + CrossHair on calc_fuse_group_info/accum_for_split", ref="§4 C05", engine="B+A"),
     "C06": dict(text=B + " blockwise = fused = auto (rank, deep index tables, labels, values); pre-fused free legs stay fused; align+fuse contracted legs (insert/concat)+single-pair contraction equals the k-pair contraction; fusing free legs before equals after.", note=NOTE_B,
                 tech="z3-term symbolic execution of contraction strategies and fuse/contract commutation", ref="§4 C06", engine="B"),
-    "C07": dict(text=A + " calc_reshape_args with symbolic sizes / merge pattern / drop pattern against an independent shape simulator, forward and reverse. " + B + " Every merge/drop target and back; content preserved (each input variable exactly once up to sign); three call routes agree.", note=NOTE_A + " " + NOTE_B,
+    "C07": dict(text=A + " calc_reshape_args with symbolic sizes / merge pattern / drop pattern against an independent shape simulator, forward and reverse. " + B + " Every merge/drop target and back, plus targets that insert a size-one axis (alone or while re-splitting a fused axis) held to the general clauses; content preserved (each input variable exactly once up to sign); three call routes agree.", note=NOTE_A + " " + NOTE_B,
                 tech="CrossHair on calc_reshape_args + z3-term symbolic execution of reshape round trips", ref="§4 C07", engine="A+B"),
     "C08": dict(text=B + " Each operation through every call route; an operation may raise (all routes alike) but never return another value.", note=NOTE_B,
                 tech="z3-term symbolic execution of each op vs the op on the densified operand; path controller for abs/min/max/clip", ref="§4 C08", engine="B"),
-    "C09": dict(text=B + " Relational inductive step: every operation on an array with an arbitrary pending-sign table and on its hand-synchronised twin (same variables) must give equal values; phase_sync is idempotent and value-preserving.", note=NOTE_B + " Raw-storage accessors are excluded (their meaning is the stored representation).",
+    "C09": dict(text=B + " Relational inductive step: every operation on an array with an arbitrary pending-sign table and on its hand-synchronised twin (same variables) must give equal values (including decompositions' products and solve under memoised LAPACK contract stubs); phase_sync is idempotent and value-preserving.", note=NOTE_B + " Raw-storage accessors are excluded (their meaning is the stored representation).",
                 tech="z3-term relational symbolic execution (lazy vs synchronised twin) of every fermionic op", ref="§4 C09", engine="B"),
     "C10": dict(text=B + " Complex entries as pairs of real terms; norm identities for conj/dagger in both operand orders and both option values; adjoint laws; doubled 2-3 tensor networks along sampled routes against the independent graded value of the ket network.", note=NOTE_B + " Involution is claimed for default options only; 3-tensor networks use real entries.",
                 tech="z3-term symbolic execution (complex) of conj/dagger/tensordot norm identities and doubled networks vs graded oracle", ref="§4 C10", engine="B"),
@@ -38,7 +38,7 @@ CHECKS = {
                 tech="z3-term symbolic execution with LAPACK contract stubs; path controller for the stabilised-QR sign splits", ref="§4 C11", engine="B"),
     "C12": dict(text=B + " Algebraic certificates at the level of the dense matrix under the LAPACK contract stubs (Ud^H Ud = I, Vd Vd^H = I, sd >= 0, Ud diag(sd) Vd = dense(x); eigh and solve likewise; norm^2 = sum |entries|^2).", note=NOTE_B + " The step from certificate to 'is the spectrum / the solution' is the textbook uniqueness theorem (trusted, unmechanised).",
                 tech="z3-term symbolic execution with LAPACK contract stubs; dense-level SVD/eigh/solve certificates", ref="§4 C12", engine="B"),
-    "C13": dict(text=B + " svd_truncated on symbolic singular values and a symbolic cutoff: the real sort/cumsum/count_nonzero/indexing run on terms, every branch is decided by the solver; on every feasible path the kept set equals an independent statement of the six rules intersected with the bond limit, kept slices are term-identical to the untruncated factors, monotone in the cutoff, absorb variants agree; the bond-split kernel for a symbolic integer limit.", note=NOTE_B + " Assumes pairwise distinct positive singular values; <=4 values (5 thorough).",
+    "C13": dict(text=B + " svd_truncated on symbolic singular values and a symbolic cutoff: the real sort/cumsum/count_nonzero/indexing run on terms, every branch is decided by the solver; on every feasible path the kept set equals an independent statement of the six rules intersected with the bond limit, the untruncated decomposition reproduces the input through the library's contraction, kept slices are term-identical to the untruncated factors, monotone in the cutoff, absorb variants agree; the bond-split kernel for a symbolic integer limit.", note=NOTE_B + " Assumes pairwise distinct positive singular values; <=4 values (5 thorough).",
                 tech="forking z3-term symbolic execution of svd_truncated with SVD contract stub vs independent rule specification", ref="§4 C13", engine="B"),
     "C14": dict(text=B + " Operand snapshots (terms in order, tables, signs, labels) before/after every op; inplace=True equals out-of-place; out-of-place op followed by in-place follow-ups on the result leaves the operand unchanged.", note=NOTE_B,
                 tech="z3-term symbolic execution with operand snapshots; before==after obligations", ref="§4 C14", engine="B"),
@@ -56,7 +56,7 @@ CHECKS["C18"] = dict(text=B + " Symbolic coefficients flow through the real buil
 CHECKS["C19"] = dict(text=A + " Symbolic graphs on 4 sites (edge present / listed reversed); the edge-wise builders with the two-site builder replaced by a recorder; parse_edges_to_site_info. " + B + " End to end: the edge terms (spinless on all graphs <=3 sites, spinful on small graphs) applied to a symbolic state and summed equal the Fock-space lattice Hamiltonian applied to it.", note=NOTE_A + " " + NOTE_B,
                      tech="CrossHair on edge/site bookkeeping + z3-term end-to-end application vs Fock-space lattice Hamiltonian", ref="§4 C19", engine="A+B")
 
-CHECKS["C20"] = dict(text=B + " PARTIAL: decided by the cast trap of the term layer - zero blocks created to fill missing sectors have the type of the data they join (a machine-typed zero array shows up as a cast of a symbolic entry or as machine numbers among the terms; replayed in single precision where the wrong dtype is visible), and the imaginary part is never discarded (value identities with complex terms; real arrays meeting complex factors).", note=NOTE_B + " The dtype-promotion clause (float32/complex64 stay un-promoted through numpy's type resolution, real parts for spectra) is NOT claimed: not applicable to solver-based checking (see not_applicable).",
+CHECKS["C20"] = dict(text=B + " PARTIAL: decided by the cast trap of the term layer - zero blocks created to fill missing sectors have the type of the data they join (a machine-typed zero array shows up as a cast of a symbolic entry or as machine numbers among the terms; replayed in single precision where the wrong dtype is visible), and the imaginary part is never discarded (value identities with complex terms; real arrays meeting complex factors; sums of real and complex arrays followed by every zero-block-creating operation, with concrete float64 blocks in front of symbolic complex data; complex coefficients through the local-operator builders, whose real accumulation buffer is modelled by an object array that traps complex writes).", note=NOTE_B + " The dtype-promotion clause (float32/complex64 stay un-promoted through numpy's type resolution, real parts for spectra) is NOT claimed: not applicable to solver-based checking (see not_applicable).",
                      tech="z3-term symbolic execution with cast trap for machine-typed zero blocks and discarded imaginary parts; single-precision replay", ref="§4 C20, §5", engine="B")
 
 ALL = [f"C{i:02d}" for i in range(1, 21)]
